@@ -118,7 +118,7 @@ let () =
               | m :: _, [] -> Printf.printf "%s DIFF %d %s\n" c.id k m
               | [], _ :: _ -> Printf.printf "%s DIFF %d -\n" c.id k in
             cmp 0 model impl;
-            Verdicts.emit c.id c.stream trace (Stdlib.List.map parse_obs impl)
+            Verdicts.emit c.id c.stream trace c.pool (Stdlib.List.map fst c.steps) (Stdlib.List.map parse_obs impl) impl
           | [] -> failwith "empty result line")
        end
      done
